@@ -42,6 +42,27 @@ def _enclosing(tree, node):
     return ".".join(reversed(names))
 
 
+def effective_callers(tree, qual, modname="core", _seen=None):
+    """A call site inside a helper that did not exist when the contracts were written (baseline/functions.json) counts for the
+    functions that call the helper: extracting `self._update()` into a private method does not create a new trigger."""
+    from pyvc.frames import _known
+
+    seen = _seen if _seen is not None else set()
+    if qual in seen:
+        return set()
+    seen.add(qual)
+    if not qual or _known(f"{modname}:{qual}"):
+        return {qual}
+    simple = qual.rsplit(".", 1)[-1]
+    out = set()
+    for n in ast.walk(tree):
+        if isinstance(n, ast.Call) and ((isinstance(n.func, ast.Attribute) and n.func.attr == simple) or (isinstance(n.func, ast.Name) and n.func.id == simple)):
+            enc = _enclosing(tree, n)
+            if enc != qual:
+                out |= effective_callers(tree, enc, modname, seen)
+    return out or {qual}
+
+
 def rebuild_sites(modname="core"):
     tree = source.module(modname).tree
     parents = {}
@@ -76,7 +97,8 @@ def task():
         try:
             source.reset()
             sites = rebuild_sites("core")
-            bad = [s for s in sites if not s["guarded"] and s["function"] not in ALLOWED_UNGUARDED]
+            tree0 = source.module("core").tree
+            bad = [s for s in sites if not s["guarded"] and not (effective_callers(tree0, s["function"]) <= ALLOWED_UNGUARDED)]
             res.obligations.append(dict(name="frames.rebuild/a_built_function_is_rebuilt_only_when_its_methods_change", status="proved" if not bad and sites else "refuted", time=0.0, model=(f"unguarded rebuild: {bad}" if bad else None if sites else "no call site of compile() found"), note="ast-frame", path="", goal=f"call sites of Ovld.compile: {sites}"[:300]))
             # the fields a rebuild replaces are written nowhere else: `_compiled` and `map` of an Ovld
             writers = {}
@@ -90,6 +112,8 @@ def task():
                 if isinstance(n, ast.Call) and isinstance(n.func, ast.Name) and n.func.id in ("setattr", "delattr") and len(n.args) >= 2 and isinstance(n.args[1], ast.Constant) and n.args[1].value in ("_compiled", "map"):
                     writers.setdefault(n.args[1].value, set()).add(_enclosing(source.module("core").tree, n))
             allowed = {"_compiled": {"Ovld.__init__", "Ovld.compile"}, "map": {"Ovld.compile"}}
+            tree1 = source.module("core").tree
+            writers = {k: {c for w_ in v for c in effective_callers(tree1, w_)} for k, v in writers.items()}  # helpers split off compile count as compile
             badw = {k: sorted(v - allowed[k]) for k, v in writers.items() if v - allowed[k]}
             res.obligations.append(dict(name="frames.rebuild/built_flag_and_table_are_written_only_by_init_and_compile", status="proved" if not badw and writers.get("_compiled") else "refuted", time=0.0, model=str(badw) if badw else None, note="ast-frame", path="", goal=f"writers: { {k: sorted(v) for k, v in writers.items()} }"[:300]))
             # Ovld._update (rebuild of a function in use and of its linked descendants) is reached only from a change of the method
@@ -98,6 +122,8 @@ def task():
             for n in ast.walk(source.module("core").tree):
                 if isinstance(n, ast.Call) and isinstance(n.func, ast.Attribute) and n.func.attr == "_update":
                     upd.append(_enclosing(source.module("core").tree, n))
+            tree_ = source.module("core").tree
+            upd = sorted({c for u in upd for c in effective_callers(tree_, u)})
             bad_upd = sorted(set(upd) - {"Ovld.register", "Ovld._register", "Ovld.unregister", "Ovld._update"})
             res.obligations.append(dict(name="frames.rebuild/update_is_triggered_only_by_a_change_of_the_method_set", status="proved" if not bad_upd and upd else "refuted", time=0.0, model=(f"_update called from {bad_upd}" if bad_upd else None), note="ast-frame", path="", goal=f"call sites of _update: {sorted(set(upd))}"))
             # the other modules never rebuild a function
